@@ -1,7 +1,7 @@
 (** C08 — external representations round-trip: property theorems only. *)
 From Coq Require Import ZArith List.
 From ChibiV Require Import C08.Datum C08.Tables Gen.C08_Tables Gen.C08_Leaf C08.Write C08.Read C08.Proofs C08.Proofs2 C08.Labels C08.LabelProofs
-  C08.Model3 C08.CharProofs C08.CompoundProofs C08.FloProofs C08.LabelVecProofs C08.Numbers C08.NumberProofs.
+  C08.Model3 C08.FloSpec C08.CharProofs C08.CompoundProofs C08.FloProofs C08.LabelVecProofs C08.Numbers C08.NumberProofs.
 Import ListNotations.
 Local Open Scope Z_scope.
 
